@@ -51,4 +51,16 @@ theorem display_names (e : Entry) :
 theorem wrong_length (name : Name) (i : Nat) (t : Tensor) :
     addGo name i [] [.tensor t] = .pyExc .valueError := by simp [addGo]
 
+/-- a position of the tuple hint without a dltype annotation holds ONE value of the tuple, whatever that value is — None, an int, a
+    tuple or list of arrays (`Value.tup`): it is skipped as a whole, the later elements keep their positions (nothing is flattened) -/
+theorem plain_position_holds_anything (name : Name) (i : Nat) (as : List (Option Ann)) (v : Value) (vs : List Value) :
+    addGo name i (none :: as) (v :: vs) = addGo name (i + 1) as vs := by
+  cases v <;> rfl
+
+/-- … and the value of a tuple-hinted position is walked element by element whether it is an exact tuple, a list or an instance of a
+    tuple subclass: all three reach the model as `Value.tup` (what `zip` sees), so `addHinted` cannot tell them apart -/
+example (name : Name) (h : HintAnns) (vs : List Value) (as : List (Option Ann)) (hr : resolveTypes h.anns = some as) (ht : h.isTuple = true) :
+    addHinted name (.tup vs) h = addGo name 0 as vs := by
+  simp [addHinted, hr, ht]
+
 end Dltype.C11
